@@ -13,6 +13,9 @@ import PyGam.Model.Vec
 * `BState`, `withinTol`, `bisectStep`, `bisectLoop`, `fitQuantile` : the binary search of `ExpectileGAM.fit_quantile`
   as a fuel-bounded state machine over an abstract oracle `ratio k e` (the empirical quantile
   `(predict(X) > y).mean()` of the model current at loop iteration `k`, whose expectile is `e`)
+* `SState`, `searchLoop`, `searchTrace`, `searchStart`, `fitQuantileW` : the same search with the re-fit made explicit:
+  `fit kw e` is a function of the keywords `fit_quantile` forwards to `fit` (the sample weights) and of the expectile,
+  `ratio m` of the fitted model; `interceptModelFit`, `interceptRatio` : the intercept-only ExpectileGAM as such a `fit` / `ratio`
 -/
 namespace PyGam.Expectile
 variable {α : Type}
